@@ -283,10 +283,31 @@ def run(chk):
 
 
 def replay(chk, path):
+    """re-build the recorded configuration on /repo's current tree; exit 1 (with a VIOLATION line) when the recorded failure reproduces"""
     obj = json.load(open(path))
-    cfg = obj["replay"]["cfg"]
+    rp = obj.get("replay") or {}
+    if "cfg" not in rp:
+        print(json.dumps(obj, indent=1)[:3000])
+        print("this replay file names a broken proof obligation / tie, not an input; re-run ./check C09")
+        return 0
+    cfg = rp["cfg"]
     cfg["split"] = {int(k): v for k, v in cfg["split"].items()}
     mos = common.build_mos()
     rc, out, files = run_build(mos, cfg, tempfile.gettempdir())
-    print(json.dumps({"source": source(cfg), "exit": rc, "out": out, "files": {k: v.hex() for k, v in files.items()}}, indent=1))
+    got = {k: v.hex() for k, v in files.items()}
+    bad = None
+    if "want" in rp:
+        bad = rc != 0 or got != rp["want"]
+    elif "files" in rp and "got" not in rp:          # recorded: must be rejected but was built
+        bad = rc == 0
+    elif "output" in rp:                             # recorded: valid configuration rejected
+        bad = rc != 0
+    elif "exit" in rp:                               # top-of-memory cases: fits <=> accepted
+        s0 = cfg["segs"][0]
+        fits = s0["start"] + len(s0["data"]) <= 0x10000
+        bad = (rc != 0 or files.get("main.bin") != bytes(s0["data"])) if fits else (rc == 0 or bool(files))
+    print(json.dumps({"source": source(cfg), "exit": rc, "files_now": got, "demanded": rp.get("want"), "reproduces": bad}, indent=1))
+    if bad:
+        print("VIOLATION property=C09 replay=%s" % path)
+        return 1
     return 0
